@@ -335,6 +335,67 @@ def npHlo (h : Raise.HLO) (shape : Shape) (kind : VKind) (env : List (String × 
   | .logicalNot _ => none
   | .reduce op x axes => (Raise.lookupEnv env x).map fun a => npReduce op a (axes.map (·.1))
 
+/-! ### basic indexing with slices already adjusted to their axes
+
+  pytato's `BasicIndex` stores NORMALISED slices (`NormalizedSlice`: what `_normalize_slice`
+  makes of the user's slice for the axis length); NumPy is given a Python slice, which CPython
+  adjusts to the axis (`cpyAdjust`).  `gIndex` is indexing with the adjusted slices in hand:
+  `Spec.basicIndex ix a = gIndex (adjust a.shape ix) a`. -/
+
+inductive GIdx where
+  | int (k : Int)
+  | slice (s : NSlice)
+
+def gShape : Shape → List GIdx → Shape
+  | _ :: ns, .int _ :: ix => gShape ns ix
+  | _ :: ns, .slice s :: ix => (cpyLen s).toNat :: gShape ns ix
+  | _, _ => []
+
+def gSrc : Shape → List GIdx → Idx → Idx
+  | n :: ns, .int k :: ix, i => (if k < 0 then k + n else k).toNat :: gSrc ns ix i
+  | _ :: ns, .slice s :: ix, j :: i => (s.start + s.step * j).toNat :: gSrc ns ix i
+  | _, _, _ => []
+
+def gIndex {α : Type} (ix : List GIdx) (a : Arr α) : Arr α :=
+  ⟨gShape a.shape ix, fun i => a.get (gSrc a.shape ix i)⟩
+
+/-- CPython's adjustment of every slice to its axis -/
+def adjust : Shape → List Spec.BIdx → List GIdx
+  | _ :: ns, .int k :: ix => .int k :: adjust ns ix
+  | n :: ns, .slice st sp step :: ix => .slice (cpyAdjust st sp step n) :: adjust ns ix
+  | _, _ => []
+
+/-- the entries of a `BasicIndex` node -/
+def PIdx.toG : PIdx → Option GIdx
+  | .int k => some (.int k)
+  | .slice s => some (.slice s)
+  | .arr _ => none
+
+def toGs : List PIdx → Option (List GIdx)
+  | [] => some []
+  | x :: r => (match x.toG, toGs r with | some g, some gs => some (g :: gs) | _, _ => none)
+
+/-- the Python index entries the target writes for the first entries of a basic index (the
+    evaluated form of `idxSlots`) -/
+def emittedB : List PIdx → Shape → List Spec.BIdx
+  | [], _ => []
+  | .int k :: r, ds => .int k :: emittedB r ds.tail
+  | .slice s :: r, ds =>
+    (let t := resynthSlice s (ds.headD 0); Spec.BIdx.slice t.1 t.2.1 t.2.2) :: emittedB r ds.tail
+  | .arr _ :: r, ds => emittedB r ds.tail
+
+def isNormB (s : NSlice) (n : Int) : Bool :=
+  (decide (s.step > 0) && decide (0 ≤ s.start) && decide (s.start ≤ n) && decide (0 ≤ s.stop) && decide (s.stop ≤ n))
+  || (decide (s.step < 0) && decide (-1 ≤ s.start) && decide (s.start ≤ n - 1) && decide (-1 ≤ s.stop)
+      && decide (s.stop ≤ n - 1))
+
+/-- every entry is an integer or a slice in the range of `_normalize_slice` for its axis -/
+def basicNorm : List PIdx → Shape → Bool
+  | [], [] => true
+  | .int _ :: r, _ :: ds => basicNorm r ds
+  | .slice s :: r, d :: ds => isNormB s d && basicNorm r ds
+  | _, _ => false
+
 def normIdxB (dim : Nat) : PIdx → Option Spec.BIdx
   | .int k => some (.int k)
   | .slice s =>
@@ -380,6 +441,11 @@ def denoteStep (g : PGraph) (inp : Nat → Option (Arr Val)) (den : Nat → Opti
   | .concat cs axis =>
     if axis ≥ 0 then (allSomeArr (cs.map den)).map fun as => Spec.concatenate axis.toNat as .undef
     else none
+  | .index c ix =>
+    -- a basic index (integers and normalised slices): indexing with those slices
+    (match toGs ix, den c with
+     | some gs, some a => some (gIndex gs a)
+     | _, _ => none)
   | .alias c => den c
   | _ => none
 
@@ -496,6 +562,12 @@ def suppNode (g : PGraph) (i : Nat) : Bool :=
   | .reshape _ order => (order == "C" || order == "F") && (staticShape nd.shape).isSome
   | .stack _ axis => decide (axis ≥ 0)
   | .concat _ axis => decide (axis ≥ 0)
+  | .index c ix =>
+    -- basic indices whose slices are in the range of `_normalize_slice`, one entry per axis, at
+    -- least one entry written (an index of trivial slices only is its child: outside the fragment)
+    (match staticShape (g.get c).shape with
+     | some cshape => basicNorm ix cshape && decide (emittedIdxCount ix cshape > 0)
+     | none => false)
   | .alias _ => true
   | .dict _ => true
   | _ => false
@@ -504,6 +576,10 @@ def suppNode (g : PGraph) (i : Nat) : Bool :=
     subject of other properties; here it is a hypothesis about the graph and its inputs) -/
 def RankOK (g : PGraph) (inp : Nat → Option (Arr Val)) : Prop :=
   ∀ c a, den g inp c = some a → a.shape.length = (g.get c).shape.length
+
+/-- a static declared shape is the shape of the array the node denotes -/
+def ShapeOK (g : PGraph) (inp : Nat → Option (Arr Val)) : Prop :=
+  ∀ c a s, den g inp c = some a → staticShape (g.get c).shape = some s → a.shape = s
 
 /-- every node reachable from `root` is in the fragment (fuel-indexed closure) -/
 def suppAll (g : PGraph) : Nat → Nat → Bool
